@@ -92,6 +92,49 @@ pub fn gen(tier: &str, r: &mut Rng) -> Vec<String> {
             }
         }
     }
+    // thresholds of internal counters: the fall-back chain letter advances on every TER record (26 letters),
+    // atom serial numbers wrap after 99999, residue numbers after 9999
+    for k in [0usize, 1, 24, 25, 26, 27, 28, 51, 52, 53, 80, 200] {
+        let mut lines: Vec<String> = Vec::new();
+        for i in 0..k {
+            if i % 3 == 0 { lines.push(format!("ATOM  {:>5}  CA  ALA {}{:>4}    {:>8.3}{:>8.3}{:>8.3}  1.00 10.00           C  ", i + 1, (b'A' + (i % 26) as u8) as char, i + 1, i as f64, 0.0, 0.0)); }
+            lines.push("TER".to_string());
+        }
+        lines.push(format!("HETATM{:>5}  O   HOH  {:>4}    {:>8.3}{:>8.3}{:>8.3}  1.00 10.00           O  ", 9000, 1, 1.0, 2.0, 3.0));
+        lines.push("END".to_string());
+        push(&mut out, r, (lines.join("\n") + "\n").into_bytes(), "threshold");
+    }
+    for (a, b2) in [(99_998usize, 9_998i64), (99_999, 9_999), (0, 0)] {
+        let mut lines: Vec<String> = Vec::new();
+        for i in 0..4usize { lines.push(format!("ATOM  {:>5}  CA  ALA A{:>4}    {:>8.3}{:>8.3}{:>8.3}  1.00 10.00           C  ", (a + i) % 100_000, (b2 + i as i64) % 10_000, i as f64, 0.0, 0.0)); }
+        lines.push("END".to_string());
+        push(&mut out, r, (lines.join("\n") + "\n").into_bytes(), "threshold");
+    }
+    // SEQRES records of one or two chains over several lines, with mismatches against the ATOM records at random
+    // positions (the mismatch diagnostic quotes SEQRES lines: they must stand at the reported numbers)
+    for _ in 0..budget(tier, 60, 3000) {
+        let mut lines: Vec<String> = Vec::new();
+        for _ in 0..r.below(3) { lines.push("REMARK   2 RESOLUTION.    1.74 ANGSTROMS.".to_string()); }
+        let names = ["ALA", "GLY", "SER", "LYS", "CYS"];
+        let nchains = 1 + r.below(2);
+        let mut seqs: Vec<(char, Vec<&str>)> = Vec::new();
+        for ci in 0..nchains { let n = 1 + r.below(30); seqs.push(((b'A' + ci as u8) as char, (0..n).map(|_| *r.pick(&names)).collect())); }
+        for (ch, seq) in &seqs {
+            for (k, chunk) in seq.chunks(13).enumerate() { lines.push(format!("SEQRES {:>3} {} {:>4}  {}", k + 1, ch, seq.len(), chunk.join(" "))); }
+        }
+        let mut serial = 0;
+        for (ch, seq) in &seqs {
+            for (i, n) in seq.iter().enumerate() {
+                let name = if r.chance(1, 6) { *r.pick(&names) } else { n };
+                if r.chance(1, 12) { continue; }
+                serial += 1;
+                lines.push(format!("ATOM  {:>5}  CA  {} {}{:>4}    {:>8.3}{:>8.3}{:>8.3}  1.00 10.00           C  ", serial, name, ch, i, i as f64, 0.0, 0.0));
+            }
+            lines.push("TER".to_string());
+        }
+        lines.push("END".to_string());
+        push(&mut out, r, (lines.join("\n") + "\n").into_bytes(), "seqres");
+    }
     // multi-fault mutations of generated documents
     let n = budget(tier, 1500, 60_000);
     for _ in 0..n {
